@@ -7,7 +7,9 @@
    have a registered deserialiser.
 
    doc_err are the documented errors (the JSONSerializationError subclasses a deserialisation may raise):
-     EMissing            the tag is absent or empty/falsy
+     EMissing            the tag is absent or null
+   (a present tag of the wrong JSON type -- 0, false, [], {} included -- and "" are EInvalidFormat: the property text lists
+   "missing", "malformed" and "of the wrong JSON type" as different problems, and the error must identify the problem)
      EInvalidFormat      the tag is not a string "<owner>.<name>" with a non-empty, non-relative owner part
      EUnknownModule      the owner part is not "<importable module>[.<class>.<class>...]"
      EClassNotFound      the owner has no such attribute, or the attribute is not a class
@@ -45,6 +47,11 @@ Definition falsy (t : jv) : bool :=
   | JObj [] => true
   | _ => false
   end.
+
+Definition is_null (t : jv) : bool := match t with JNull => true | _ => false end.
+(* present, falsy, but not null: 0, 0.0, -0.0, false, "", [], {}  (the class of finding C19-e) *)
+Definition K_falsy_present (tag : option jv) : bool :=
+  match tag with Some t => falsy t && negb (is_null t) | None => false end.
 
 (* "<module>.<name>": split at the last dot, stated through list reversal *)
 Fixpoint take_until_dot (s : str) : option (str * str) :=   (* (before first dot, after it) *)
@@ -95,7 +102,7 @@ Section Spec.
     match tag with
     | None => RError EMissing
     | Some t =>
-        if falsy t then RError EMissing else
+        if is_null t then RError EMissing else
         match t with
         | JStr s =>
             match split_last_dot s with
